@@ -100,8 +100,10 @@ def vp_group_sql(rule: ViralPropagationRule, col_ref: str) -> str:
     """SQL aggregate expression combining a group of viral values."""
     if rule.aggregate_function is not None:
         return f"{_AGG_GROUP[rule.aggregate_function]}({col_ref})"
+    # Fold in a canonical order of the values (ascending, nulls last): an enumerated rule need
+    # not be associative, so folding in physical order would make the result depend on row order.
     case = _enumerated_case(rule, "acc", "x")
-    return f"list_reduce(list({col_ref}), (acc, x) -> {case})"
+    return f"list_reduce(list({col_ref} ORDER BY {col_ref}), (acc, x) -> {case})"
 
 
 def vp_group_sql_windowed(rule: ViralPropagationRule, col_ref: str, over_clause: str) -> str:
@@ -109,7 +111,9 @@ def vp_group_sql_windowed(rule: ViralPropagationRule, col_ref: str, over_clause:
     if rule.aggregate_function is not None:
         return f"{_AGG_GROUP[rule.aggregate_function]}({col_ref}) OVER ({over_clause})"
     case = _enumerated_case(rule, "acc", "x")
-    return f"list_reduce(list({col_ref}) OVER ({over_clause}), (acc, x) -> {case})"
+    return (
+        f"list_reduce(list({col_ref} ORDER BY {col_ref}) OVER ({over_clause}), (acc, x) -> {case})"
+    )
 
 
 def vp_no_rule_group_sql(col_ref: str) -> str:
